@@ -177,6 +177,10 @@ func (b *baiImpl) samRecord(r c04Rec) *sam.Record {
 	if r.MateUnm {
 		rec.Flags |= sam.MateUnmapped
 	}
+	if r.Mapped && r.End == r.Start {
+		// a mapped read whose CIGAR consumes no reference: End() = Pos
+		rec.Cigar = []sam.CigarOp{sam.NewCigarOp(sam.CigarInsertion, 5)}
+	}
 	if r.Mapped {
 		n := r.End - r.Start
 		for n > 0 {
@@ -737,6 +741,11 @@ func (cs *c04Case) runCase(c *ctx, d *Driver, impl *[]string) {
 	for _, code := range run.codes {
 		r.hist(fmt.Sprintf("add.%s.%c", cs.Kind, code))
 	}
+	for _, rec := range cs.Recs {
+		if rec.Placed && rec.End == rec.Start {
+			r.hist("rec." + cs.Kind + ".empty-interval")
+		}
+	}
 	if run.panicked {
 		// the state after a panic is not defined; compare the result codes only
 		d.add("c04.codes %s %s %s", cs.Kind, cfg, recs)
@@ -1048,6 +1057,9 @@ func (g *c04Gen) sortedCase(kind string, thorough bool) *c04Case {
 			if e <= s {
 				e = s + 1
 			}
+			if rnd.coin(1, 15) {
+				e = s // empty reference interval (BAM: CIGAR without reference-consuming operation)
+			}
 			rec := c04Rec{Rid: rid, Start: s, End: e, Placed: true, Mapped: true}
 			if rnd.coin(1, 7) { // placed but unmapped: occupies one base
 				rec.Mapped = false
@@ -1103,7 +1115,7 @@ func (cs *c04Case) normalise() {
 			r.Rid = -1
 		}
 		r.Placed = r.Rid >= 0 && r.Start != -1
-		if !r.Mapped || r.End <= r.Start {
+		if !r.Mapped || r.End < r.Start {
 			r.End = r.Start + 1
 		}
 	}
@@ -1447,7 +1459,7 @@ func checkC04(c *ctx) {
 	r := c.res
 	c04MemGuard(r)
 	r.Rule = "cases: kind in {bai (bam.Index over sam.Records), csi (12 geometries incl. defaults, v1/v2, aux), tbx (shuffled name pool, header fields)} x " +
-		"sorted record sequences over 1-4 references (skipped ids, same starts, placed-unmapped, mate-unmapped, unplaced records in between/at the end) with starts at k*2^(minShift+3l)+{-2..2} " +
+		"sorted record sequences over 1-4 references (skipped ids, same starts, placed-unmapped, mate-unmapped, empty reference intervals = CIGAR 5I, unplaced records in between/at the end) with starts at k*2^(minShift+3l)+{-2..2} " +
 		"in a small (8 finest bins) / medium (600) / full-range region and lengths to the next tile edge -1/0/+1, one tile +-1, one bin of a random level +-1; synthetic monotone chunk layouts (incl. first chunk at offset 0, gaps); " +
 		"queries: single bases at record start/end/last tile, one base before/behind, covering, neighbouring reference, plus a boundary-biased grid; strategies identity/adjacent/squash/compress(n). " +
 		"Every case is judged before write∘read, after it, and after MergeChunks. Real layouts: bai cases are also written with bam.Writer (sequence lengths 0..30000 so that records cross BGZF blocks), read back, indexed with the reader's LastChunk values, judged the same way and end to end with bam.Iterator over the returned chunks. " +
@@ -1493,6 +1505,25 @@ func checkC04(c *ctx) {
 	}
 	for i := 0; i < nReal; i++ {
 		g.realBamCase(c, d, &impl)
+	}
+	// geometries beyond Go's 64-bit position arithmetic (minShift+3*depth >= 64): every Add is rejected
+	for _, gm := range [][2]int{{14, 17}, {40, 10}, {1, 21}} {
+		cs := &c04Case{Kind: "csi", MinShift: gm[0], Depth: gm[1], Version: 2, Strategy: "adjacent"}
+		cs.Recs = []c04Rec{
+			{Rid: 0, Start: 100, End: 200, Placed: true, Mapped: true, CB: 100, CE: 150},
+			{Rid: -1, Start: -1, End: 0, CB: 150, CE: 200},
+			{Rid: 0, Start: 0, End: 1, Placed: true, Mapped: true, CB: 200, CE: 250},
+		}
+		run := cs.build(newResult("C04", "x", 0), false)
+		r.hist("geometry>=64")
+		for _, code := range run.codes {
+			r.hist(fmt.Sprintf("geometry>=64.add.%c", code))
+			if code != 'r' {
+				r.note("csi.New(%d,%d): Add returned code %c, expected the range error", gm[0], gm[1], code)
+			}
+		}
+		d.add("c04.codes %s %s %s", cs.Kind, cs.cfgText(), cs.recsText())
+		impl = append(impl, string(run.codes))
 	}
 	for i := 0; i < nCases/3; i++ {
 		for _, k := range kinds {
